@@ -292,6 +292,21 @@ int main(int argc, char **argv)
         }
         vp::bound("many_tags_family", "100,200,254..258,260,300,480 type tags with payload tags s/i/b at 5 places: valid message, truncations of the last 48 bytes, byte edits around the payloads");
     }
+    // (2a'') several array groups in one message: every well-nested type string of length 5..8 over {i [ ]} with at least two arguments: the
+    //        valid message and every truncation (accessors by index must agree with the strict decoder on what is accepted)
+    {
+        std::vector<std::string> br; gen::type_strings("i[]", 5, 8, br);
+        for(auto &ts : br) {
+            if(!vp::mine(top++)) continue;
+            size_t ni = 0; for(char t : ts) if(t == 'i') ++ni;
+            if(ni < 2) continue;
+            std::vector<ref::Arg> args; for(size_t k = 0; k < ni; ++k) { ref::Arg a; a.type = 'i'; a.u32 = 10 + (uint32_t)k; args.push_back(a); }
+            std::string base = ref::encode("/g", ts, args);
+            run_one((const uint8_t *)base.data(), base.size(), "groups");
+            for(size_t p = base.size() > 20 ? base.size() - 20 : 0; p < base.size(); ++p) run_one((const uint8_t *)base.data(), p, "groups-trunc");
+        }
+        vp::bound("bracket_groups_family", "all well-nested type strings of length 5..8 over {i [ ]} with >= 2 arguments: valid message and truncations of its last 20 bytes");
+    }
     // (2b) word-exhaustive family: in every valid message of a tiny family, each aligned 4-byte word in turn is replaced by
     //      ALL 12^4 words over the alphabet (reaches what needs two or three deviations inside one word, e.g. an empty
     //      type tag string followed by non-zero padding)
